@@ -13,6 +13,12 @@ import Driver.Bucket
     aproducer <old> <chunks> <k>                   the producer fails after k chunks (no write fails)
     conc <old> <chunksA> <chunksB> <schedule bits|->  -> what is at the final path after 0,1,…,all steps
     flush <fails bits|->                           -> err|ok + number of outputs flushed
+    walkcb <helper> <source kind> <n> <k|-> <p|w|c|-> <errv|->   a write inside a Walk callback fails with an
+                                                   error VALUE (errv: inj | no:<errno> | pe:<errno> | le: | se: | s:<sentinel> |
+                                                   w:<errv> | j1:<errv> | j2:<errv>:<errv>) -> err|ok + Puts attempted
+    archwk <tar|zip> <source kind> <errv>          Tar/Zip into a writer failing with that value
+    walkvanish <source kind> <helper> <change>     an entry of the walked directory vanishes before it is visited
+  The walk lines are evaluated with WalkRule.fixed (handoff/C15-walk-callback-error.diff).
   chunks: c1+c2+... or "-" (no chunk); faults: hexpath:<p|w|c>:<idx>,... or "-".
   The helpers' error plumbing is instantiated with the REGENERATED BufGen.AstFacts.facts.
 -/
@@ -52,7 +58,77 @@ def showDest (d : Dest) : String := dump d.mem ++ "|fired=" ++ toString d.fired.
 
 def optS (o : Option Content) : String := match o with | none => "-" | some c => "=" ++ c
 
+def parseErrno : String → Option Errno
+  | "enoent" => some .enoent | "eexist" => some .eexist | "enotdir" => some .enotdir
+  | "eisdir" => some .eisdir | "eacces" => some .eacces | "enospc" => some .enospc | _ => none
+
+def parseSentinel : String → Option Sentinel
+  | "notexist" => some .notExist | "exist" => some .exist | "permission" => some .permission
+  | "eof" => some .eof | "ueof" => some .unexpectedEOF | "shortwrite" => some .shortWrite
+  | "closedpipe" => some .closedPipe | "canceled" => some .canceled | "deadline" => some .deadline
+  | "closed" => some .closed | "osclosed" => some .osClosed | "skipdir" => some .skipDir
+  | "skipall" => some .skipAll | _ => none
+
+partial def parseErrV : List String → Option (ErrV × List String)
+  | "inj" :: r => some (.injected, r)
+  | "no" :: e :: r => (parseErrno e).map fun x => (.errno x, r)
+  | "pe" :: e :: r => (parseErrno e).map fun x => (.pathError x, r)
+  | "le" :: e :: r => (parseErrno e).map fun x => (.linkError x, r)
+  | "se" :: e :: r => (parseErrno e).map fun x => (.syscallError x, r)
+  | "s" :: x :: r => (parseSentinel x).map fun y => (.sentinel y, r)
+  | "w" :: r => do
+      let (e, r') ← parseErrV r
+      pure (.wrap e, r')
+  | "j1" :: r => do
+      let (e, r') ← parseErrV r
+      pure (.join1 e, r')
+  | "j2" :: r => do
+      let (a, r1) ← parseErrV r
+      let (b, r2) ← parseErrV r1
+      pure (.join2 a b, r2)
+  | _ => none
+
+def parseWalkHelper : String → Option WalkHelper
+  | "wro-copyreadobject" => some .wroCopyReadObject
+  | "wro-putpath" => some .wroPutPath
+  | "walk-bare" => some .walkBare
+  | "export-like" => some .exportLike
+  | "walk-copypath" => some .walkCopyPath
+  | _ => none
+
+def parsePrim : String → Option Prim
+  | "p" => some .put | "w" => some .write | "c" => some .close | _ => none
+
+/-- the stale directory listings of the harness's `walkvanish` scenarios, in visiting order -/
+def staleListing : String → Option (List Bool)
+  | "file-removed-before-visited" => some [false, true, false, false]
+  | "sibling-file-removed-before-visited" => some [false, false, false, true]
+  | "directory-removed-before-visited" => some [false, false, true]
+  | "atomic-put-temp-file-renamed-before-visited" => some [false, false, false, true, false, false]
+  | _ => none
+
 def handle : List String → String
+  | ["walkcb", helper, src, n, k, p, ev] =>
+    match parseWalkHelper helper, n.toNat? with
+    | some h, some nn =>
+      if k = "-" then "ok|puts=" ++ toString nn else
+      match k.toNat?, parsePrim p, parseErrV (ev.splitOn ":") with
+      | some kk, some pp, some (e, []) =>
+        (match walkCopy .fixed (src != "mem") h pp e with
+          | some _ => "err|puts=" ++ toString (kk + 1)
+          | none => "ok|puts=" ++ toString nn)
+      | _, _, _ => "bad-op"
+    | _, _ => "bad-op"
+  | ["archwk", _kind, src, ev] =>
+    match parseErrV (ev.splitOn ":") with
+    | some (e, []) =>
+      -- the write is inside WalkReadObjects' callback: a Write of the archive writer
+      res ((walkCopy .fixed (src != "mem") .wroCopyReadObject .write e).isSome)
+    | _ => "bad-op"
+  | ["walkvanish", _src, _helper, change] =>
+    match staleListing change with
+    | some l => "ok|missing-survivors=" ++ toString ((l.filter (!·)).length - visitStale .fixed l)
+    | none => "bad-op"
   | ["wobj", helper, h, cs, fs] =>
     match hexDecode h, parseSched fs with
     | some p, some s =>
